@@ -3264,16 +3264,40 @@ func (e *c10Eng) ruleWaitFor() {
 		}
 	}
 	// does f reach an unbounded receive on ch?
-	waits := func(f *c10Fn, ch string) bool {
-		found := false
+	waitSites := func(f *c10Fn, ch string) []*c10Site {
+		var out []*c10Site
 		e.reach(f, func(g *c10Fn) {
 			for _, s := range g.sites {
 				if s.kind == "recv" && s.ch == ch && s.block == "unbounded" {
-					found = true
+					out = append(out, s)
 				}
 			}
 		})
-		return found
+		return out
+	}
+	waits := func(f *c10Fn, ch string) bool { return len(waitSites(f, ch)) > 0 }
+	// servesWhileWaiting: every wait of f on ch is an arm of a select that also receives from other — whoever is
+	// blocked sending on other is served by the waiter itself, so that send cannot keep the signal on ch from coming
+	servesWhileWaiting := func(f *c10Fn, ch, other string) bool {
+		ws := waitSites(f, ch)
+		if len(ws) == 0 {
+			return false
+		}
+		for _, w := range ws {
+			if w.inSel == nil {
+				return false
+			}
+			arm := false
+			for _, o := range w.fn.sites {
+				if o != w && o.kind == "recv" && o.inSel == w.inSel && o.ch == other {
+					arm = true
+				}
+			}
+			if !arm {
+				return false
+			}
+		}
+		return true
 	}
 	// consumers of channel ch of object owner, by context
 	consumers := func(ch, owner string) c10Bits {
@@ -3315,6 +3339,9 @@ func (e *c10Eng) ruleWaitFor() {
 					bad := ""
 					for _, snd := range sendsBy[G] {
 						if snd.ch == j.ch || c10TypeOfPath(snd.ch) != jt {
+							continue
+						}
+						if servesWhileWaiting(t, j.ch, snd.ch) {
 							continue
 						}
 						cons := consumers(snd.ch, owner)
